@@ -37,17 +37,25 @@ func main() { hv.Main(map[string]func(*hv.RunCfg) error{"c12": runC12}) }
 type inst struct {
 	f     *hclwrite.File
 	shelf []*hclwrite.Block
+	cl    *caller // nil: every call gets fresh arguments (caller.go)
 }
 
 func newInst(c *tcase) *inst {
 	if c.Parsed {
-		f, diags := hclwrite.ParseConfig([]byte(c.Src), "", hcl.InitialPos)
+		src := []byte(c.Src)
+		f, diags := hclwrite.ParseConfig(src, "", hcl.InitialPos)
 		if diags.HasErrors() {
 			panic("initial text does not parse: " + diags.Error())
 		}
-		return &inst{f: f}
+		if c.Caller != callerFresh {
+			// the source buffer is the caller's again (caller.go)
+			for i := range src {
+				src[i] = 'Z'
+			}
+		}
+		return &inst{f: f, cl: newCaller(c.Caller)}
 	}
-	return &inst{f: hclwrite.NewEmptyFile()}
+	return &inst{f: hclwrite.NewEmptyFile(), cl: newCaller(c.Caller)}
 }
 
 func (in *inst) bodyAt(p []int) *hclwrite.Body {
@@ -69,6 +77,7 @@ type opResult struct {
 	flag     bool
 	hasFlag  bool // the call returns bool
 	panicked any
+	retained bool // Body.AppendUnstructuredTokens kept the caller's slice (aliasing callers only)
 }
 
 func (in *inst) apply(o hop) (res opResult) {
@@ -76,6 +85,8 @@ func (in *inst) apply(o hop) (res opResult) {
 		if r := recover(); r != nil {
 			res.panicked = r
 		}
+		// the call is over: the arguments are the caller's again (caller.go)
+		in.cl.afterCall(o.String())
 	}()
 	b := in.bodyAt(o.Path)
 	if b == nil {
@@ -85,15 +96,15 @@ func (in *inst) apply(o hop) (res opResult) {
 	case opSetVal:
 		res.attr, res.hasAttr = b.SetAttributeValue(o.Name, o.value()), true
 	case opSetTrav:
-		res.attr, res.hasAttr = b.SetAttributeTraversal(o.Name, o.traversal()), true
+		res.attr, res.hasAttr = b.SetAttributeTraversal(o.Name, in.cl.travArg(o.traversal())), true
 	case opSetRaw:
-		res.attr, res.hasAttr = b.SetAttributeRaw(o.Name, lexTokens(o.Raw)), true
+		res.attr, res.hasAttr = b.SetAttributeRaw(o.Name, in.rawArg(o)), true
 	case opRename:
 		res.flag, res.hasFlag = b.RenameAttribute(o.Name, o.To), true
 	case opRemoveAttr:
 		res.attr, res.hasAttr = b.RemoveAttribute(o.Name), true
 	case opAppendNewBlock:
-		b.AppendNewBlock(o.Name, o.Labels)
+		b.AppendNewBlock(o.Name, in.cl.labelArg(o.Labels))
 	case opRemoveBlock:
 		bl := b.Blocks()
 		if o.Index >= 0 && o.Index < len(bl) {
@@ -114,12 +125,20 @@ func (in *inst) apply(o hop) (res opResult) {
 	case opSetLabels:
 		bl := b.Blocks()
 		if o.Index >= 0 && o.Index < len(bl) {
-			bl[o.Index].SetLabels(o.Labels)
+			bl[o.Index].SetLabels(in.cl.labelArg(o.Labels))
 		}
 	case opAppendNewline:
 		b.AppendNewline()
 	case opAppendRaw:
-		b.AppendUnstructuredTokens(lexTokens(o.Raw))
+		arg := in.cl.tokens(lexTokens(o.Raw))
+		b.AppendUnstructuredTokens(arg)
+		if in.cl != nil && in.appendRawRetains(o.Path, arg) {
+			// the tree holds on to the caller's slice: reported under its own kind; the caller leaves
+			// that memory alone from now on so that the rest of the history stays meaningful
+			res.retained = true
+			in.cl.stats.appendRawRetains++
+			in.cl.abandonTokens()
+		}
 	case opClear:
 		b.Clear()
 	}
@@ -338,7 +357,7 @@ func (p *coqPrinter) op(o hop) string {
 	case opSetTrav:
 		return fmt.Sprintf("OSetAttr %s %s %s", path, hbytes(o.Name), coqToks(hclwrite.NewExpressionAbsTraversal(o.traversal()).BuildTokens(nil)))
 	case opSetRaw:
-		return fmt.Sprintf("OSetAttr %s %s %s", path, hbytes(o.Name), coqToks(hclwrite.NewExpressionRaw(lexTokens(o.Raw)).BuildTokens(nil)))
+		return fmt.Sprintf("OSetAttr %s %s %s", path, hbytes(o.Name), coqToks(rawRefTokens(o)))
 	case opRename:
 		return fmt.Sprintf("ORenameAttr %s %s %s", path, hbytes(o.Name), hbytes(o.To))
 	case opRemoveAttr:
@@ -831,6 +850,7 @@ type caseResult struct {
 	steps    int
 	panicked bool
 	err      error
+	cstats   callerStats // what the aliasing / scribbling caller did (instance B)
 }
 
 func (r *caseResult) has(kind string) bool { _, ok := r.failStep[kind]; return ok }
@@ -847,6 +867,11 @@ func runCase(c *tcase, emit bool, full bool) (res *caseResult) {
 		}
 	}()
 	a, b := newInst(c), newInst(c)
+	defer func() {
+		if b.cl != nil {
+			res.cstats = b.cl.stats
+		}
+	}()
 	m := newMirror()
 	if c.Parsed {
 		m.loadSource(c.Src)
@@ -858,6 +883,8 @@ func runCase(c *tcase, emit bool, full bool) (res *caseResult) {
 			return
 		}
 		m.apply(o)
+		a.scribbleResults(&ra, false)
+		b.scribbleResults(&rb, true)
 	}
 	pr := &coqPrinter{unesc: map[string]bool{}}
 	var init, obs0 string
@@ -911,6 +938,11 @@ func runCase(c *tcase, emit bool, full bool) (res *caseResult) {
 		ra := a.apply(o)
 		rb := b.apply(o)
 		m.apply(o)
+		if ra.panicked == nil && rb.panicked == nil {
+			// the caller modifies everything the API handed back BEFORE anything is observed
+			a.scribbleResults(&ra, false)
+			b.scribbleResults(&rb, true)
+		}
 		if emit {
 			ob := "ObsPanic"
 			if ra.panicked != nil {
@@ -945,6 +977,16 @@ func runCase(c *tcase, emit bool, full bool) (res *caseResult) {
 			continue
 		}
 		var fs []oracleFail
+		// ownership (caller.go)
+		if rb.retained {
+			fs = append(fs, oracleFail{"append-unstructured-keeps-caller-slice", fmt.Sprintf("%s: the body keeps the very slice the caller passed (a later write to that slice by the caller rewrites the file); SetAttributeRaw copies", o.String())})
+		}
+		if b.cl != nil {
+			for _, w := range b.cl.wrote {
+				fs = append(fs, oracleFail{"api-wrote-into-caller-memory", w})
+			}
+			b.cl.wrote = nil
+		}
 		// what the call returned
 		if mb != nil {
 			switch o.Kind {
@@ -1212,6 +1254,19 @@ func corpus() []*tcase {
 		// a label containing an escaped template introducer after the same character
 		{Ops: []hop{{Kind: opAppendNewBlock, Name: "a", Labels: []string{"$${x}"}}}},
 		{Ops: []hop{{Kind: opSetRaw, Name: "a", Raw: "1 + 2"}, {Kind: opSetTrav, Name: "b", Trav: "var.x[0].y"}, {Kind: opAppendRaw, Raw: "# c\n"}, {Kind: opSetRaw, Name: "a", Raw: "foo(a, b)"}}},
+		// ownership (caller.go): `append(prefix, ident(name))` in a loop - three attributes whose raw tokens come from one array
+		{Caller: callerAliasing, Parsed: true, Src: "# inputs\nregion = var.region # keep first\n\nsettings {\n  # per-environment values\n  enabled = true\n}\n",
+			Ops: []hop{{Kind: opSetRaw, Path: []int{0}, Name: "zone", Raw: "var.zone"}, {Kind: opSetRaw, Path: []int{0}, Name: "tier", Raw: "var.tier"}, {Kind: opSetRaw, Path: []int{0}, Name: "owner", Raw: "var.owner"}}},
+		// a template slice patched between two edits of different attributes, then an edit that touches neither expression
+		{Caller: callerAliasing, Ops: []hop{{Kind: opSetRaw, Name: "first", Via: "call", Fn: "lookup", Parts: []string{"local.table", "key0"}},
+			{Kind: opSetRaw, Name: "second", Via: "call", Fn: "lookup", Parts: []string{"local.table", "key1"}}, {Kind: opRename, Name: "second", To: "other"}}},
+		// every slice-taking call once, arguments and results scribbled over after each call
+		{Caller: callerScribbler, Ops: []hop{{Kind: opAppendNewBlock, Name: "r", Labels: []string{"x", "y"}}, {Kind: opSetLabels, Index: 0, Labels: []string{"p", "q", "r"}},
+			{Kind: opSetTrav, Name: "t", Trav: "var.x[0].y"}, {Kind: opSetRaw, Name: "a", Raw: "1 + 2"}, {Kind: opSetRaw, Path: []int{0}, Name: "o", Via: "object", Parts: []string{"k", "1", "(a.b)", "[1, 2]"}},
+			{Kind: opSetRaw, Name: "u", Via: "tuple", Parts: []string{"a", "f(1)"}}, {Kind: opAppendRaw, Raw: "# c\n"}, {Kind: opAppendNewBlock, Path: []int{0}, Name: "n", Labels: []string{"l"}},
+			{Kind: opSetTrav, Path: []int{0}, Name: "t2", Trav: "local.a.b"}, {Kind: opRemoveAttr, Name: "a"}, {Kind: opRemoveBlock, Index: 0}, {Kind: opAppendBlock, Index: 0}}},
+		{Caller: callerScribbler, Parsed: true, Src: "a = [for x in y : x] # c\nb \"l\" {\n  c = 1\n}\n", Ops: []hop{{Kind: opSetRaw, Name: "z", Raw: "var.z"}, {Kind: opSetRaw, Path: []int{0}, Name: "c", Raw: "var.c"},
+			{Kind: opSetLabels, Index: 0, Labels: []string{"m"}}, {Kind: opSetRaw, Name: "z2", Raw: "var.z2"}}},
 	}
 }
 
@@ -1237,7 +1292,7 @@ var knownKinds = map[string]bool{"append-after-unterminated-item": true, "remove
 
 func runC12(cfg *hv.RunCfg) error {
 	rep := hv.NewReport("C12", cfg.Seed)
-	rep.Rule = "histories of 1-40 writer-API operations (set by value/traversal/raw tokens, rename, remove, append new/shelved block, remove block, SetType, SetLabels, AppendNewline/AppendUnstructuredTokens, Clear; bodies addressed through Blocks()[i].Body() to depth 4) on an empty file, a file built through the API, or a file parsed from generated text with lead/line/inline comments, bare/quoted/escaped/template-character labels, CRLF, one-line blocks and missing final newline; hand corpus first; non-trivial = at least one operation changes the item structure; distinct by SHA-256 of the case"
+	rep.Rule = "histories of 1-40 writer-API operations (set by value/traversal/raw tokens - lexed or built through TokensForTuple/FunctionCall/Object -, rename, remove, append new/shelved block, remove block, SetType, SetLabels, AppendNewline/AppendUnstructuredTokens, Clear; bodies addressed through Blocks()[i].Body() to depth 4) on an empty file, a file built through the API, or a file parsed from generated text with lead/line/inline comments, bare/quoted/escaped/template-character labels, CRLF, one-line blocks and missing final newline; 60% of the generated histories are run by an aliasing caller (token/label/traversal arguments of successive calls cut from one backing array with spare capacity, every result of every reader modified after each call; 35%: arguments scribbled over after each call as well), 10% contain a run of shared-prefix raw sets of distinct attributes (may exceed 40 operations); hand corpus first; non-trivial = at least one operation changes the item structure; distinct by SHA-256 of the case"
 	r := hv.NewRng(cfg.Seed, 12)
 	cf := &hv.CaseFile{Dir: cfg.Out, Name: "c12cases",
 		Imports: "From Coq Require Import String.\nFrom HclV Require Import Base.Prelude Write.Format Write.Tree Write.TreeCheck.",
@@ -1299,6 +1354,34 @@ func runC12(cfg *hv.RunCfg) error {
 		}
 		rep.Count(c.JSON(), structural)
 		rep.Hist("history-length:" + lenBucket(len(c.Ops)))
+		// ownership: what the caller of this case did with its arguments and the results
+		rep.Hist("caller-mode:" + callerName(c.Caller))
+		cs := res.cstats
+		if cs.opsSharedArg > 0 {
+			rep.Hist("caller:case-with-args-cut-from-shared-array")
+		}
+		if cs.opsAliasedArg > 0 {
+			rep.Hist("caller:case-with-aliased-args(memory of an earlier argument reused)")
+		}
+		if cs.opsScribbledArg > 0 {
+			rep.Hist("caller:case-with-scribbled-args")
+		}
+		if cs.opsAliasedArg > 0 || cs.opsScribbledArg > 0 {
+			rep.Hist("caller:case-with-aliased-or-scribbled-args")
+		}
+		if cs.opsScribbledRes > 0 {
+			rep.Hist("caller:case-with-scribbled-results")
+		}
+		for k, v := range map[string]int{
+			"caller:ops-with-aliased-arg": cs.opsAliasedArg, "caller:ops-with-scribbled-arg": cs.opsScribbledArg,
+			"caller:ops-followed-by-scribbling-all-results": cs.opsScribbledRes, "caller:arg:tokens": cs.tokArgs,
+			"caller:arg:labels": cs.labelArgs, "caller:arg:traversal": cs.travArgs, "caller:arg:tokens-partial-overlap": cs.partialOverlap,
+			"caller:arg:tokens-built-via-TokensFor*": cs.viaCalls, "caller:result-slices-scribbled": cs.resultSlices,
+			"caller:append-unstructured-kept-caller-slice": cs.appendRawRetains} {
+			if v > 0 {
+				rep.Histogram[k] += v
+			}
+		}
 		if res.panicked {
 			rep.Hist("history-ended-by-panic")
 		}
